@@ -177,6 +177,91 @@ Definition take_all (ix : list nat) (d : dset) : dset :=
   mkD (length ix) (take 0%Z ix (rowids d))
       (map (fun x => (fst x, take_obj ix (snd x))) (store d)) (fields d) (next d).
 
+(* ------------------------------------------------------------------ the memo walk of subset / sort
+   Dataset.subset and the sort of merge_with call field.subset(idx, memo) for every field; PositionArray.subset /
+   PositionDeltaArray.subset / TimeBase.subset first look the object up in the memo (old id -> new object), otherwise
+   transform the objects it refers to (recursively, through the same memo), build the new object and enter it
+   into the memo.  Here: new objects get fresh identities, `wmemo` is the memo, `path` the objects being visited
+   (a reference cycle never terminates in the code; here it gives None). *)
+Record wst := mkW { wmemo : list (nat * nat); wnew : list (nat * obj); wnext : nat }.
+
+Definition set_refs (ob : obj) (rs : list (string * nat)) : obj :=
+  mkObj (okind ob) (otwo ob) (owidth ob) (ounit ob) (orows ob) rs.
+
+Fixpoint walk_list (rec : wst -> nat -> option (wst * nat)) (rl : list (string * nat)) (w : wst)
+  : option (wst * list (string * nat)) :=
+  match rl with
+  | [] => Some (w, [])
+  | ar :: r =>
+      match rec w (snd ar) with
+      | Some (w1, n) => match walk_list rec r w1 with
+                        | Some (w2, rs) => Some (w2, (fst ar, n) :: rs)
+                        | None => None end
+      | None => None
+      end
+  end.
+
+Fixpoint walk (fuel : nat) (f : obj -> obj) (old : list (nat * obj)) (path : list nat) (w : wst) (o : nat)
+  : option (wst * nat) :=
+  match fuel with
+  | 0 => None
+  | S fu =>
+      match lookup o (wmemo w) with
+      | Some n => Some (w, n)                                   (* `if old_id in memo: return memo[old_id]` *)
+      | None =>
+          if existsb (Nat.eqb o) path then None else
+          match lookup o old with
+          | None => None
+          | Some ob =>
+              match walk_list (walk fu f old (o :: path)) (orefs ob) w with
+              | Some (w1, rs) =>
+                  let n := wnext w1 in
+                  Some (mkW ((o, n) :: wmemo w1) ((n, set_refs (f ob) rs) :: wnew w1) (S n), n)
+              | None => None
+              end
+          end
+      end
+  end.
+
+(* all fields, one memo *)
+Definition walk_fields (fuel : nat) (f : obj -> obj) (old : list (nat * obj)) (fl : list (string * nat)) (w : wst)
+  : option (wst * list (string * nat)) := walk_list (walk fuel f old []) fl w.
+
+(* Dataset.subset(idx) / the sort of merge_with as the code performs it *)
+Definition subset_walk (d : dset) (ix : list nat) : option dset :=
+  match walk_fields (S (length (store d))) (take_obj ix) (store d) (fields d) (mkW [] [] (next d)) with
+  | Some (w, fs) => Some (mkD (length ix) (take 0%Z ix (rowids d)) (wnew w) fs (wnext w))
+  | None => None
+  end.
+
+(* extend / merge_with with a ZERO-ROW other dataset as the code performs it: no rows are added, so every object
+   keeps its rows (f = identity); the fields both datasets have go through insert() - the walk with the memo -,
+   the fields only self has go through append_empty(0).  With `early_return` (the code: `if num_obs == 0: return`)
+   those fields keep their old object; without it they are looked up in / walked with the same memo. *)
+Definition extend_empty_walk (early_return : bool) (d : dset) (both : list string) : option dset :=
+  let in_both := fun pf : string * nat => existsb (String.eqb (fst pf)) both in
+  let fb := filter in_both (fields d) in
+  let fs := filter (fun pf => negb (in_both pf)) (fields d) in
+  let fuel := S (length (store d)) in
+  match walk_fields fuel (fun ob => ob) (store d) fb (mkW [] [] (next d)) with
+  | Some (w1, fb') =>
+      if early_return then
+        Some (mkD (num_obs d) (rowids d) (wnew w1 ++ store d) (fb' ++ fs) (wnext w1))
+      else
+        match walk_fields fuel (fun ob => ob) (store d) fs w1 with
+        | Some (w2, fs') => Some (mkD (num_obs d) (rowids d) (wnew w2) (fb' ++ fs') (wnext w2))
+        | None => None
+        end
+  | None => None
+  end.
+
+(* do field p's attribute `attr` and field q name the same object? *)
+Definition ref_is_field (d : dset) (p attr q : string) : bool :=
+  match field_obj d p, slookup q (fields d) with
+  | Some ob, Some oq => match slookup attr (orefs ob) with Some r => Nat.eqb r oq | None => false end
+  | _, _ => false
+  end.
+
 (* ------------------------------------------------------------------ operations *)
 Inductive rtarget :=
 | TField (p : string)                         (* the object of another field *)
@@ -396,7 +481,9 @@ Fixpoint tuple_leb (a b : list payload) : bool :=
   | _, [] => false
   | x :: a', y :: b' => if key_eqb x y then tuple_leb a' b' else key_leb x y
   end.
-Definition tuple_eqb (a b : list payload) : bool := list_eqb key_eqb a b.
+(* index tuples are equal when their cells are: doubles by bit pattern, texts literally (keys -0.0 / NaN, which
+   numpy compares numerically, are outside the model) *)
+Definition tuple_eqb (a b : list payload) : bool := list_eqb payload_eqb a b.
 
 Fixpoint transpose_keys (cols : list (list payload)) (n : nat) : list (list payload) :=
   match n with
@@ -446,18 +533,20 @@ Definition diff_field (d o : dset) (sidx oidx : list nat) (ps : list string) (pf
   | None, _ => None
   end.
 
+(* which row of self is paired with which row of other *)
+Definition diff_sel (d o : dset) (ps : list string) : option (list nat * list nat) :=
+  match ps with
+  | [] => if Nat.eqb (num_obs d) (num_obs o) then Some (seq 0 (num_obs d), seq 0 (num_obs d)) else None
+  | _ => match index_keys d ps, index_keys o ps with
+         | Some ks, Some ko =>
+             let cm := map fst (isort tuple_leb (enumerate (common tuple_eqb ks ko))) in
+             Some (map (fun t => first_index tuple_eqb t ks) cm, map (fun t => first_index tuple_eqb t ko) cm)
+         | _, _ => None
+         end
+  end.
+
 Definition difference (d o : dset) (ps : list string) : option dset :=
-  let sel :=
-    match ps with
-    | [] => if Nat.eqb (num_obs d) (num_obs o) then Some (seq 0 (num_obs d), seq 0 (num_obs d)) else None
-    | _ => match index_keys d ps, index_keys o ps with
-           | Some ks, Some ko =>
-               let cm := map fst (isort tuple_leb (enumerate (common tuple_eqb ks ko))) in
-               Some (map (fun t => first_index tuple_eqb t ks) cm, map (fun t => first_index tuple_eqb t ko) cm)
-           | _, _ => None
-           end
-    end in
-  match sel with
+  match diff_sel d o ps with
   | None => None
   | Some (sidx, oidx) =>
       if Nat.eqb (length sidx) 0 then None else                 (* ValueError: nothing to differentiate *)
@@ -728,9 +817,10 @@ Definition classify_extend (d : dset) (os : list dset) (s : option string) (b : 
       end
     else 1%Z in
   let other_classes :=
-    if class_any nested_pad_class d os then 6%Z
+    if Z.eqb refs_class 4 then 4%Z
+    else if class_any nested_pad_class d os then 6%Z
     else if class_any nested_drop_class d os then 7%Z
-    else refs_class in
+    else 1%Z in
   match b, merge all_off d os s with
   | OState n flds objs, Some d' => if match_values d' n flds objs then 5%Z else other_classes
   | _, _ => other_classes
